@@ -1,5 +1,5 @@
 // auto-generated: "lalrpop 0.23.1"
-// sha3: e47217f8e84eb297b6c0417cb4bc6993123b6ccb92695ce4faeec060291e0110
+// sha3: 1795100bf9def847394344ed44d5985ba8db2461197b461204b96dd44c6a452a
 #[allow(unused_extern_crates)]
 extern crate lalrpop_util as __lalrpop_util;
 #[allow(unused_imports)]
@@ -690,7 +690,7 @@ fn __action5<
     (_, __0, _): (usize, &'input str, usize),
 ) -> String
 {
-    b'}' as char.to_string()
+    (b'}' as char).to_string()
 }
 
 #[allow(unused_variables)]
